@@ -168,7 +168,7 @@ def variants_for(prop):
     vs.append(dict(prop=prop, name="benign-flip-every-comparison", kind="benign", transform="flip_comparisons", edits=[]))
     vs.append(dict(prop=prop, name="benign-invert-every-if-else", kind="benign", transform="invert_if_else", edits=[]))
     vs.append(dict(prop=prop, name="benign-membership-as-or-chain", kind="benign", transform="membership_to_or", edits=[]))
-    for t in ("else_after_terminator", "hoist_else", "expand_augassign", "fold_constants"):
+    for t in ("else_after_terminator", "hoist_else", "expand_augassign", "fold_constants", "extract_arguments", "keyword_arguments"):
         vs.append(dict(prop=prop, name="benign-%s" % t.replace("_", "-"), kind="benign", transform=t, edits=[]))
     for b in variants.BENIGN_ALL:
         vs.append(dict(b, prop=prop))
